@@ -31,6 +31,7 @@ TOKENS = ["MMMM", "MMM", "dddd", "ddd", "dd", "Do", "do", "Mo", "Qo", "wo", "DDD
 DATE_TOKENS = ["MMMM", "MMM", "dddd", "ddd", "dd", "Do", "do", "Mo", "Qo", "wo", "DDDo", "e", "eo", "L", "LL"]
 
 US = 10**6
+BIG_SHIFT = ["Antarctica/Troll", "Antarctica/Casey", "Antarctica/Troll"]
 # elapsed seconds that straddle every rounding threshold of the formatter and CLDR plural classes
 DELTAS = [0, 1, 2, 5, 9, 10, 11, 12, 21, 30, 59, 60, 61, 119, 120, 121, 300, 3599, 3600, 3601, 7200, 21 * 3600, 22 * 3600 - 1,
           22 * 3600, 86399, 86400, 86401, 2 * 86400, 3 * 86400, 4 * 86400, 5 * 86400, 6 * 86400, 7 * 86400 - 1, 7 * 86400,
@@ -48,7 +49,9 @@ def _delta(r):
 
 
 def gen(rp, rw, tier):
-    zone_clock = rw.choice(gen_dt.DST_ZONES + gen_dt.MIDNIGHT_ZONES + ["UTC"])
+    # BIG_SHIFT: clocks that go back (or forward) by more than an hour - the two occurrences of a repeated
+    # wall time are then further apart than any "at most an hour" shortcut assumes
+    zone_clock = rw.choice(gen_dt.DST_ZONES + gen_dt.MIDNIGHT_ZONES + ["UTC"] + BIG_SHIFT)
     clock = gen_dt.pick_instant(rw, zone_clock)
     locales = rw.sample(LOCALES, rw.choice([2, 3, 4]))
     mock = rw.choice([None, None, zone_clock, rw.choice(gen_dt.DST_ZONES)])
